@@ -236,6 +236,10 @@ func errDiff(o Op, a, b *CErr) (string, string) {
 	}
 	if b.Kind == a.Kind {
 		if a.Kind == "P" && a.Path != b.Path {
+			if a.Path == o.P && strings.HasPrefix(o.P, b.Path+"/") {
+				// (the known RemoveAll finding: the argument is named where os names the offending ancestor)
+				return fmt.Sprintf("error path %q (the argument), os names its ancestor %q", a.Path, b.Path), "path:argument-vs-ancestor"
+			}
 			return fmt.Sprintf("error path %q, os names %q", a.Path, b.Path), "path:differs"
 		}
 		if a.Kind == "L" && (a.Old != b.Old || a.New != b.New) {
